@@ -1,44 +1,49 @@
 import DustVerif.Proofs.PlistCheck
 /-! Property C13: discovery data round-trips through its parameter-list encoding; unknown or vendor-specific
     parameters are ignored.  Model: Model/Plist.lean (schema-generic PL_CDR codec; the four real schemas are
-    tables).  Helper lemmas: Proofs/Plist{Codec,List,Record}.lean. -/
+    tables).  Helper lemmas: Proofs/Plist{Codec,List,Record}.lean.
+    Configurations: `Cfg.fixed` = repository main + fixes/D-plist-1.patch (delivered); `Cfg.main` = main without
+    that patch (the iterator reads the encapsulation header as a parameter) is kept for the regression witnesses. -/
 namespace DustVerif.Plist
 
-/-- C13 (round trip, generic): for EVERY schema whose decode rows are consistent with its encode rows
-    (pairwise distinct pids, each a findable 16-bit pid; same codec; the default assumed for an absent parameter
-    is the value that is not written) and EVERY record whose field values are in the value domain of their codecs
-    and whose parameters fit the 16-bit length field, `from_bytes (into_bytes d)` is `Ok` and every field holds
-    what was written — up to the documented normalisation `normField` (HISTORY KEEP_ALL carries depth -1; a
-    type-information blob comes back with its padding).  Holds for the as-is and for the repaired decoder. -/
-theorem C13_roundtrip (cfg : Cfg) (E : List EncField) (D : List DecField) (d : Nat → FVal)
-    (hc : consistent E D = true) (hw : ∀ g ∈ E, WFf g (d g.pid)) (hfit : FitsU16 E d) :
-    fromBytes cfg D (intoBytes E d) = .ok (D.map (fun f => (f.pid, normField f.codec (d f.pid)))) := by
+/-- C13 (round trip, generic): for EVERY byte order `e`, EVERY schema whose decode rows are consistent with its
+    encode rows (pairwise distinct pids, each a 16-bit pid other than the sentinel; same codec; the default assumed for
+    an absent parameter is the value that is not written) and EVERY record whose field values are in the value domain
+    of their codecs and whose parameters fit the 16-bit length field, decoding the announcement written in byte order
+    `e` is `Ok` and every field holds what was written — up to the documented normalisation `normField` (HISTORY
+    KEEP_ALL carries depth -1; a type-information blob comes back with its padding).
+    dust-dds writes `e = .le` (`intoBytes`); `e = .be` is what another vendor may send.  For a decoder without
+    fixes/D-plist-1.patch (`cfg.fixHdr = false`) `consistent` additionally demands that no pid equals what the
+    encapsulation header reads as (0x0300 under LE, 0x0002 under BE). -/
+theorem C13_roundtrip (cfg : Cfg) (e : End) (E : List EncField) (D : List DecField) (d : Nat → FVal)
+    (hc : consistent cfg e E D = true) (hw : ∀ g ∈ E, WFf g (d g.pid)) (hfit : FitsU16 e E d) :
+    fromBytes cfg D (intoBytesE e E d) = .ok (D.map (fun f => (f.pid, normField f.codec (d f.pid)))) := by
   simp only [consistent, Bool.and_eq_true] at hc
   obtain ⟨⟨hn, hpid⟩, hcompat⟩ := hc
-  have hraw : ∀ p ∈ (recordParams E d).map padP, RawOk p := by
+  have hraw : ∀ p ∈ (recordParams e E d).map padP, RawOk p := by
     intro p hp
     simp only [List.mem_map] at hp
     obtain ⟨r, hr, rfl⟩ := hp
-    have hmem := recordParams_pids E d r hr
+    have hmem := recordParams_pids e E d r hr
     simp only [List.mem_map] at hmem
     obtain ⟨g, hg, hgp⟩ := hmem
-    have hok := allPidOk_mem E hpid g hg
+    have hok := allPidOk_mem cfg e E hpid g hg
     simp only [pidOk, Bool.and_eq_true, decide_eq_true_eq, bne_iff_ne, ne_eq] at hok
     refine ⟨?_, ?_, hfit r hr⟩
     · simp only [padP, ← hgp]; exact hok.1.1
     · simp only [padP, ← hgp]; exact hok.1.2
-  have hbytes : intoBytes E d = plHeader ++ (serRaws ((recordParams E d).map padP) ++ (sentinel ++ [])) := by
-    simp [intoBytes, serParams_eq _ hfit]
-  have hpl : mkPl (intoBytes E d) = plOf E d := by
-    rw [hbytes, mkPl_raws _ _ hraw]; rfl
-  have hlen : ¬ (intoBytes E d).length < 4 := by
-    rw [hbytes]; simp [plHeader]
+  have hbytes : intoBytesE e E d
+      = plHeader e ++ (serRaws e ((recordParams e E d).map padP) ++ (sentinel e ++ [])) := by
+    simp [intoBytesE, serParams_eq e _ hfit]
+  have hpl : mkPl cfg (intoBytesE e E d) = plOf cfg e E d := by
+    rw [hbytes, mkPl_raws cfg e _ _ hraw]; rfl
+  have hlen : ¬ (intoBytesE e E d).length < 4 := by
+    rw [hbytes]; simp [plHeader_length]
   simp only [fromBytes, hlen, if_false, hpl]
   apply decFields_ok
   intro f hf
   obtain ⟨g, hg, hcg⟩ := hasCompat_exists E f (allCompat_mem E D hcompat f hf)
-  have := decField_enc cfg E d g f hg hn (allPidOk_mem E hpid g hg) hcg (hw g hg)
-  exact this
+  exact decField_enc cfg e E d g f hg hn (allPidOk_mem cfg e E hpid g hg) hcg (hw g hg)
 
 /-- non-vacuity: a publication record with non-default reliability, partition, user data, representation, type
     information and two unicast locators (everything else at its default) -/
@@ -57,49 +62,83 @@ def exPub : Nat → FVal := fun pid =>
            [.i (-1), .n 4294967295, .bs [255, 0, 0, 0, 0, 0, 0, 0, 0, 0, 0, 0, 0, 0, 0, 1]]]
   else defaultRec publicationDec pid
 
-/-- the hypotheses of `C13_roundtrip` are satisfiable by a non-trivial record of a real schema -/
-example : (∀ g ∈ publicationEnc, WFf g (exPub g.pid)) ∧ FitsU16 publicationEnc exPub :=
-  ⟨wfRecB_sound _ _ (by decide), fitsB_sound _ _ (by decide)⟩
+/-- the hypotheses of `C13_roundtrip` are satisfiable by a non-trivial record of a real schema, in both byte orders -/
+example : (∀ g ∈ publicationEnc, WFf g (exPub g.pid)) ∧ FitsU16 .le publicationEnc exPub
+    ∧ FitsU16 .be publicationEnc exPub :=
+  ⟨wfRecB_sound _ _ (by decide), fitsB_sound _ _ _ (by decide), fitsB_sound _ _ _ (by decide)⟩
 
 /-- and the record is written as 11 parameters -/
-example : (recordParams publicationEnc exPub).length = 11 := by decide
+example : (recordParams .le publicationEnc exPub).length = 11 := by decide
 
-/-- the four real schemas satisfy the side condition (checked by evaluation of the tables) -/
-theorem C13_participant_schema_consistent : consistent participantEnc participantDec = true := by decide
-theorem C13_publication_schema_consistent : consistent publicationEnc publicationDec = true := by decide
-theorem C13_subscription_schema_consistent : consistent subscriptionEnc subscriptionDec = true := by decide
-theorem C13_topic_schema_consistent : consistent topicEnc topicDec = true := by decide
+/-- the four real schemas satisfy the side condition for the repaired decoder in BOTH byte orders (checked by
+    evaluation of the tables) -/
+theorem C13_participant_schema_consistent (e : End) : consistent Cfg.fixed e participantEnc participantDec = true := by
+  cases e <;> decide
+theorem C13_publication_schema_consistent (e : End) : consistent Cfg.fixed e publicationEnc publicationDec = true := by
+  cases e <;> decide
+theorem C13_subscription_schema_consistent (e : End) :
+    consistent Cfg.fixed e subscriptionEnc subscriptionDec = true := by
+  cases e <;> decide
+theorem C13_topic_schema_consistent (e : End) : consistent Cfg.fixed e topicEnc topicDec = true := by
+  cases e <;> decide
 
+/-- … and, for what dust-dds itself writes (little-endian), also for the decoder of main without the patch -/
+theorem C13_real_schemas_consistent_le_main :
+    consistent Cfg.main .le participantEnc participantDec = true ∧
+    consistent Cfg.main .le publicationEnc publicationDec = true ∧
+    consistent Cfg.main .le subscriptionEnc subscriptionDec = true ∧
+    consistent Cfg.main .le topicEnc topicDec = true := by decide
 
-/-- C13 (round trip) instantiated for the four real records: SpdpDiscoveredParticipantData, DiscoveredWriterData,
-    DiscoveredReaderData, DiscoveredTopicData -/
-theorem C13_roundtrip_real (cfg : Cfg) (d : Nat → FVal) :
-    ((∀ g ∈ participantEnc, WFf g (d g.pid)) → FitsU16 participantEnc d →
-      fromBytes cfg participantDec (intoBytes participantEnc d)
+/-- C13 (round trip) for the four real records — SpdpDiscoveredParticipantData, DiscoveredWriterData,
+    DiscoveredReaderData, DiscoveredTopicData — written in EITHER byte order and read by the repaired decoder -/
+theorem C13_roundtrip_real (e : End) (d : Nat → FVal) :
+    ((∀ g ∈ participantEnc, WFf g (d g.pid)) → FitsU16 e participantEnc d →
+      fromBytes Cfg.fixed participantDec (intoBytesE e participantEnc d)
         = .ok (participantDec.map (fun f => (f.pid, normField f.codec (d f.pid))))) ∧
-    ((∀ g ∈ publicationEnc, WFf g (d g.pid)) → FitsU16 publicationEnc d →
-      fromBytes cfg publicationDec (intoBytes publicationEnc d)
+    ((∀ g ∈ publicationEnc, WFf g (d g.pid)) → FitsU16 e publicationEnc d →
+      fromBytes Cfg.fixed publicationDec (intoBytesE e publicationEnc d)
         = .ok (publicationDec.map (fun f => (f.pid, normField f.codec (d f.pid))))) ∧
-    ((∀ g ∈ subscriptionEnc, WFf g (d g.pid)) → FitsU16 subscriptionEnc d →
-      fromBytes cfg subscriptionDec (intoBytes subscriptionEnc d)
+    ((∀ g ∈ subscriptionEnc, WFf g (d g.pid)) → FitsU16 e subscriptionEnc d →
+      fromBytes Cfg.fixed subscriptionDec (intoBytesE e subscriptionEnc d)
         = .ok (subscriptionDec.map (fun f => (f.pid, normField f.codec (d f.pid))))) ∧
-    ((∀ g ∈ topicEnc, WFf g (d g.pid)) → FitsU16 topicEnc d →
-      fromBytes cfg topicDec (intoBytes topicEnc d)
+    ((∀ g ∈ topicEnc, WFf g (d g.pid)) → FitsU16 e topicEnc d →
+      fromBytes Cfg.fixed topicDec (intoBytesE e topicEnc d)
         = .ok (topicDec.map (fun f => (f.pid, normField f.codec (d f.pid))))) :=
-  ⟨C13_roundtrip cfg _ _ d C13_participant_schema_consistent,
-   C13_roundtrip cfg _ _ d C13_publication_schema_consistent,
-   C13_roundtrip cfg _ _ d C13_subscription_schema_consistent,
-   C13_roundtrip cfg _ _ d C13_topic_schema_consistent⟩
+  ⟨C13_roundtrip Cfg.fixed e _ _ d (C13_participant_schema_consistent e),
+   C13_roundtrip Cfg.fixed e _ _ d (C13_publication_schema_consistent e),
+   C13_roundtrip Cfg.fixed e _ _ d (C13_subscription_schema_consistent e),
+   C13_roundtrip Cfg.fixed e _ _ d (C13_topic_schema_consistent e)⟩
 
-/-- C13 (unknown parameters are ignored): take ANY well-delimited little-endian parameter list (arbitrary
+/-- the announcements dust-dds writes itself (`into_bytes`, little-endian) also round-trip through the decoder of
+    main without the patch -/
+theorem C13_roundtrip_real_le_main (d : Nat → FVal) :
+    ((∀ g ∈ participantEnc, WFf g (d g.pid)) → FitsU16 .le participantEnc d →
+      fromBytes Cfg.main participantDec (intoBytes participantEnc d)
+        = .ok (participantDec.map (fun f => (f.pid, normField f.codec (d f.pid))))) ∧
+    ((∀ g ∈ publicationEnc, WFf g (d g.pid)) → FitsU16 .le publicationEnc d →
+      fromBytes Cfg.main publicationDec (intoBytes publicationEnc d)
+        = .ok (publicationDec.map (fun f => (f.pid, normField f.codec (d f.pid))))) ∧
+    ((∀ g ∈ subscriptionEnc, WFf g (d g.pid)) → FitsU16 .le subscriptionEnc d →
+      fromBytes Cfg.main subscriptionDec (intoBytes subscriptionEnc d)
+        = .ok (subscriptionDec.map (fun f => (f.pid, normField f.codec (d f.pid))))) ∧
+    ((∀ g ∈ topicEnc, WFf g (d g.pid)) → FitsU16 .le topicEnc d →
+      fromBytes Cfg.main topicDec (intoBytes topicEnc d)
+        = .ok (topicDec.map (fun f => (f.pid, normField f.codec (d f.pid))))) :=
+  ⟨C13_roundtrip Cfg.main .le _ _ d C13_real_schemas_consistent_le_main.1,
+   C13_roundtrip Cfg.main .le _ _ d C13_real_schemas_consistent_le_main.2.1,
+   C13_roundtrip Cfg.main .le _ _ d C13_real_schemas_consistent_le_main.2.2.1,
+   C13_roundtrip Cfg.main .le _ _ d C13_real_schemas_consistent_le_main.2.2.2⟩
+
+/-- C13 (unknown parameters are ignored): take ANY well-delimited parameter list in either byte order (arbitrary
     parameters `ps1 ++ ps2`, not only self-produced ones, anything after the sentinel) and insert ANY parameter `q`
     whose pid is not one the record reads (it may carry the vendor-specific bit 0x8000 or the must-understand bit
     0x4000, be PID_PAD, have any value and any length below 2^16) at ANY position before the sentinel: the decoder
-    returns exactly the same result (same record, or same error).  For every schema and both configurations. -/
-theorem C13_unknown_ignored (cfg : Cfg) (D : List DecField) (ps1 ps2 : List Param) (q : Param) (tail : Bytes)
-    (hq : RawOk q) (hnot : ∀ f ∈ D, f.pid ≠ q.1) (h1 : ∀ p ∈ ps1, RawOk p) (h2 : ∀ p ∈ ps2, RawOk p) :
-    fromBytes cfg D (plHeader ++ (serRaws (ps1 ++ q :: ps2) ++ (sentinel ++ tail)))
-      = fromBytes cfg D (plHeader ++ (serRaws (ps1 ++ ps2) ++ (sentinel ++ tail))) := by
+    returns exactly the same result (same record, or same error).  For every schema and every configuration. -/
+theorem C13_unknown_ignored (cfg : Cfg) (e : End) (D : List DecField) (ps1 ps2 : List Param) (q : Param)
+    (tail : Bytes) (hq : RawOk q) (hnot : ∀ f ∈ D, f.pid ≠ q.1) (h1 : ∀ p ∈ ps1, RawOk p)
+    (h2 : ∀ p ∈ ps2, RawOk p) :
+    fromBytes cfg D (plHeader e ++ (serRaws e (ps1 ++ q :: ps2) ++ (sentinel e ++ tail)))
+      = fromBytes cfg D (plHeader e ++ (serRaws e (ps1 ++ ps2) ++ (sentinel e ++ tail))) := by
   have hA : ∀ p ∈ ps1 ++ q :: ps2, RawOk p := by
     intro p hp
     simp only [List.mem_append, List.mem_cons] at hp
@@ -113,13 +152,15 @@ theorem C13_unknown_ignored (cfg : Cfg) (D : List DecField) (ps1 ps2 : List Para
     rcases hp with hp | hp
     · exact h1 p hp
     · exact h2 p hp
-  have hl1 : ¬ (plHeader ++ (serRaws (ps1 ++ q :: ps2) ++ (sentinel ++ tail))).length < 4 := by simp [plHeader]
-  have hl2 : ¬ (plHeader ++ (serRaws (ps1 ++ ps2) ++ (sentinel ++ tail))).length < 4 := by simp [plHeader]
-  simp only [fromBytes, hl1, hl2, if_false, mkPl_raws _ _ hA, mkPl_raws _ _ hB]
+  have hl1 : ¬ (plHeader e ++ (serRaws e (ps1 ++ q :: ps2) ++ (sentinel e ++ tail))).length < 4 := by
+    simp [plHeader_length]
+  have hl2 : ¬ (plHeader e ++ (serRaws e (ps1 ++ ps2) ++ (sentinel e ++ tail))).length < 4 := by
+    simp [plHeader_length]
+  simp only [fromBytes, hl1, hl2, if_false, mkPl_raws cfg e _ _ hA, mkPl_raws cfg e _ _ hB]
   apply decFields_congr
   intro f hf
   have hne : q.1 ≠ f.pid := fun h => hnot f hf h.symm
-  have := filterPid_insert f.pid ((768, []) :: ps1) ps2 q hne
+  have := filterPid_insert f.pid (hdrItems cfg e ++ ps1) ps2 q hne
   simpa using this
 
 /-- non-vacuity of `C13_unknown_ignored`: a vendor-specific parameter with an unpadded 3-octet value may be inserted
@@ -129,14 +170,15 @@ example : RawOk (0x8001, [1, 2, 3]) ∧ RawOk (PID_VENDORID, [1, 16, 0, 0]) ∧ 
   refine ⟨by simp [RawOk], by simp [RawOk, PID_VENDORID], by simp [RawOk], by decide⟩
 
 /-- C13 (the sentinel ends the list): whatever follows the sentinel — further parameters, also ones the record
-    would read, or garbage — does not influence the result.  Any well-delimited little-endian list, any schema. -/
-theorem C13_after_sentinel_ignored (cfg : Cfg) (D : List DecField) (ps : List Param) (tail : Bytes)
+    would read, or garbage — does not influence the result.  Any well-delimited list, either byte order, any schema. -/
+theorem C13_after_sentinel_ignored (cfg : Cfg) (e : End) (D : List DecField) (ps : List Param) (tail : Bytes)
     (h : ∀ p ∈ ps, RawOk p) :
-    fromBytes cfg D (plHeader ++ (serRaws ps ++ (sentinel ++ tail)))
-      = fromBytes cfg D (plHeader ++ (serRaws ps ++ (sentinel ++ []))) := by
-  have hl1 : ¬ (plHeader ++ (serRaws ps ++ (sentinel ++ tail))).length < 4 := by simp [plHeader]
-  have hl2 : ¬ (plHeader ++ (serRaws ps ++ (sentinel ++ ([] : Bytes)))).length < 4 := by simp [plHeader]
-  simp only [fromBytes, hl1, hl2, if_false, mkPl_raws _ _ h]
+    fromBytes cfg D (plHeader e ++ (serRaws e ps ++ (sentinel e ++ tail)))
+      = fromBytes cfg D (plHeader e ++ (serRaws e ps ++ (sentinel e ++ []))) := by
+  have hl1 : ¬ (plHeader e ++ (serRaws e ps ++ (sentinel e ++ tail))).length < 4 := by simp [plHeader_length]
+  have hl2 : ¬ (plHeader e ++ (serRaws e ps ++ (sentinel e ++ ([] : Bytes)))).length < 4 := by
+    simp [plHeader_length]
+  simp only [fromBytes, hl1, hl2, if_false, mkPl_raws cfg e _ _ h]
 
 theorem ne_nil_of_length (big : Bytes) (hbig : big.length = 65536) : big ≠ [] := by
   intro h
@@ -145,17 +187,18 @@ theorem ne_nil_of_length (big : Bytes) (hbig : big.length = 65536) : big ≠ [] 
 
 /-- what `write_cdr_parameter` emits for 65 536 octets of user data: the length field says 4 -/
 theorem serParam_bigOctets (big : Bytes) (hl : big.length = 65536) :
-    serParam (PID_USER_DATA, encCodec cOctets [.bs big]) = serRaw (PID_USER_DATA, [0, 0, 1, 0]) ++ big := by
-  have hpad : pad4 (encCodec cOctets [.bs big]) = [0, 0, 1, 0] ++ big := by
-    simp [pad4, encCodec, cOctets, normPost, encMembers, encPrim, padTo, zeros, le32, hl]
-  simp [serParam, serRaw, hpad, hl, le16, PID_USER_DATA]
+    serParam .le (PID_USER_DATA, encCodec .le cOctets [.bs big])
+      = serRaw .le (PID_USER_DATA, [0, 0, 1, 0]) ++ big := by
+  have hpad : pad4 (encCodec .le cOctets [.bs big]) = [0, 0, 1, 0] ++ big := by
+    simp [pad4, encCodec, cOctets, normPost, encMembers, encPrim, padTo, zeros, enc32, hl]
+  simp [serParam, serRaw, hpad, hl, enc16, PID_USER_DATA]
 
-/-- C13 (as-is counter-example, finding D17, open): `write_cdr_parameter` stores the parameter length with
+/-- C13 (counter-example, finding D17, open): `write_cdr_parameter` stores the parameter length with
     `as u16` (rtps_data_representation_serialization.rs:46).  For EVERY participant record whose user_data is
     65 536 octets long (whatever the octets and the other fields) the announcement does not decode back to the
     record: the PID_USER_DATA parameter claims a length of 4, so the decoder reads an incomplete sequence and falls
     back to the empty default (or fails on what follows).  `C13_roundtrip` holds for every record that satisfies
-    `FitsU16`. -/
+    `FitsU16`.  Every configuration. -/
 theorem C13_big_octets_counterexample (cfg : Cfg) (d : Nat → FVal) (big : Bytes) (hbig : big.length = 65536)
     (hd : d PID_USER_DATA = .one [.bs big]) :
     fromBytes cfg participantDec (intoBytes participantEnc d)
@@ -165,23 +208,27 @@ theorem C13_big_octets_counterexample (cfg : Cfg) (d : Nat → FVal) (big : Byte
   -- the bytes: header, then the user-data parameter with the wrapped length, then everything else
   have hne : ([PVal.bs big] == dEmpty) = false := by
     simp [dEmpty, hnil]
-  have hbytes : ∃ rest, intoBytes participantEnc d = plHeader ++ (serRaw (PID_USER_DATA, [0, 0, 1, 0]) ++ rest) := by
-    refine ⟨big ++ (serParams (recordParams participantEnc.tail d) ++ sentinel), ?_⟩
-    have : recordParams participantEnc d
-        = (PID_USER_DATA, encCodec cOctets [.bs big]) :: recordParams participantEnc.tail d := by
+  have hbytes : ∃ rest, intoBytes participantEnc d
+      = plHeader .le ++ (serRaw .le (PID_USER_DATA, [0, 0, 1, 0]) ++ rest) := by
+    refine ⟨big ++ (serParams .le (recordParams .le participantEnc.tail d) ++ sentinel .le), ?_⟩
+    have : recordParams .le participantEnc d
+        = (PID_USER_DATA, encCodec .le cOctets [.bs big]) :: recordParams .le participantEnc.tail d := by
       simp [participantEnc, recordParams, fieldParams, hd, hne]
-    simp [intoBytes, this, serParams, serParam_bigOctets big hbig]
+    simp [intoBytes, intoBytesE, this, serParams, serParam_bigOctets big hbig]
   obtain ⟨rest, hb⟩ := hbytes
-  obtain ⟨X, t, hpl⟩ := mkPl_first (PID_USER_DATA, [0, 0, 1, 0]) rest (by simp [RawOk, PID_USER_DATA])
-  have hlen : ¬ (intoBytes participantEnc d).length < 4 := by rw [hb]; simp [plHeader]
+  obtain ⟨X, t, hpl⟩ := mkPl_first cfg .le (PID_USER_DATA, [0, 0, 1, 0]) rest (by simp [RawOk, PID_USER_DATA])
+  have hlen : ¬ (intoBytes participantEnc d).length < 4 := by rw [hb]; simp [plHeader_length]
   rw [fromBytes, if_neg hlen, hb, hpl] at heq
   -- second field read: user data
   obtain ⟨v1, vs1, _, h2, hL1⟩ := decFields_cons_ok _ _ _ _ _ heq
   obtain ⟨v2, vs2, hud, _, hL2⟩ := decFields_cons_ok _ _ _ _ _ h2
-  have hdec : decField cfg ⟨0, 3, some .le, (768, []) :: (PID_USER_DATA, [0, 0, 1, 0]) :: X, t⟩
+  have hdec : decField cfg ⟨0, hdrByte .le, some .le, hdrItems cfg .le ++ (PID_USER_DATA, [0, 0, 1, 0]) :: X, t⟩
       ⟨PID_USER_DATA, cOctets, .optional dEmpty⟩ = .ok (.one dEmpty) := by
-    simp [decField, seek, findPid, PID_USER_DATA, decFound, cOctets, decCodec, decMembers, decPrim, rdU32, alignTo,
-      skip, padTo, takeN, rd32]
+    by_cases hf : cfg.fixHdr = true
+    · simp [hdrItems, hf, decField, seek, findPid, PID_USER_DATA, decFound, cOctets, decCodec, decMembers, decPrim,
+        rdU32, alignTo, skip, padTo, takeN, rd32]
+    · simp [hdrItems, hf, hdrPid, decField, seek, findPid, PID_USER_DATA, decFound, cOctets, decCodec, decMembers,
+        decPrim, rdU32, alignTo, skip, padTo, takeN, rd32]
   rw [hdec] at hud
   simp only [Out.ok.injEq] at hud
   subst hud
@@ -192,7 +239,6 @@ theorem C13_big_octets_counterexample (cfg : Cfg) (d : Nat → FVal) (big : Byte
 
 /-- the hypothesis of the counter-example is satisfiable: there are octet strings of every length -/
 example (n : Nat) : (List.replicate n 0 : Bytes).length = n := List.length_replicate ..
-
 
 /-- the all-default participant announcement of the unit test `serialize_spdp_discovered_participant_data_all_default`
     in the big-endian encapsulation PL_CDR_BE (`00 02 00 00`), which RTPS 9.4.2.11 allows every sender to use -/
@@ -205,20 +251,26 @@ def beParticipant : Bytes :=
    0, 0x02, 0, 8, 0, 0, 0, 100, 0, 0, 0, 0,
    0, 1, 0, 0]
 
-/-- C13 (as-is counter-example, finding D-plist-1, open, replayed): `PidIterator` starts at offset 0 of the
-    payload, so it reads the encapsulation header as a parameter.  Under PL_CDR_BE the header `00 02 00 00` IS
-    `PID_PARTICIPANT_LEASE_DURATION` (0x0002) with length 0, it is the first occurrence of that pid, and decoding a
-    Duration from zero octets fails: every big-endian participant announcement is rejected (publication,
-    subscription and topic data do not read pid 2 and are not affected; little-endian headers read as the unused
-    pid 0x0300, which is why `pidOk` excludes that value). -/
+/-- C13 regression witness of the repaired finding D-plist-1 (replayed on main): before fixes/D-plist-1.patch
+    `PidIterator` started at offset 0 of the payload and read the encapsulation header as a parameter.  Under
+    PL_CDR_BE the header `00 02 00 00` IS `PID_PARTICIPANT_LEASE_DURATION` (0x0002) with length 0 and is the first
+    occurrence of that pid; decoding a Duration from zero octets fails, so EVERY big-endian participant announcement
+    was rejected — which is also why the participant schema does not satisfy the side condition of `C13_roundtrip`
+    for that decoder and byte order. -/
 theorem C13_big_endian_participant_counterexample :
     fromBytes Cfg.asIs participantDec beParticipant = .err .notEnoughData ∧
-    fromBytes Cfg.fixed participantDec beParticipant = .err .notEnoughData := by decide
+    fromBytes Cfg.main participantDec beParticipant = .err .notEnoughData ∧
+    consistent Cfg.main .be participantEnc participantDec = false := by decide
 
-/-- … while the same list without the header pseudo-parameter in the way (lease duration removed, so the default
-    100 s is taken) decodes: the rest of the big-endian path works -/
-example : ∃ r, fromBytes Cfg.fixed participantDec
-    [0, 3, 0, 0, 0x50, 0, 16, 0, 8, 8, 8, 8, 8, 8, 8, 8, 8, 8, 8, 8, 0, 0, 1, 0xc1, 0x15, 0, 4, 0, 2, 4, 0, 0,
-     0x16, 0, 4, 0, 73, 74, 0, 0, 0x58, 0, 4, 0, 2, 0, 0, 0, 1, 0, 0, 0] = .ok r := ⟨_, rfl⟩
+/-- … and with the patch the same octets decode to the announced record (lease duration 100 s, protocol 2.4,
+    vendor 73.74, builtin endpoints 2) -/
+theorem C13_big_endian_participant_fixed :
+    fromBytes Cfg.fixed participantDec beParticipant
+      = .ok (participantDec.map (fun f => (f.pid, normField f.codec
+          ((fun pid => if pid == PID_PARTICIPANT_GUID then FVal.one [.bs [8, 8, 8, 8, 8, 8, 8, 8, 8, 8, 8, 8, 0, 0, 1, 0xc1]]
+            else if pid == PID_VENDORID then .one [.bs [73, 74]]
+            else if pid == PID_BUILTIN_ENDPOINT_SET then .one [.n 2]
+            else if pid == PID_PROTOCOL_VERSION then .one [.bs [2, 4]]
+            else defaultRec participantDec pid) f.pid)))) := by decide
 
 end DustVerif.Plist
